@@ -4,10 +4,12 @@ from props import l2_queries as L
 from props.common import *
 QUERIES = [Query('parse_input', 'harness', ULF.unit_parse_input, 'h_parse_input', unwind=40, timeout=900,
                  functions=['instance.cpp: Instance::parse_input_transaction'], bounded='spending transactions with at most 3 inputs (the selection loop is index-generic)'),
+           Query('script_patterns', 'harness', ULF.unit_decode, 'h_script_patterns', defines=['VERIF_ITEM_CAP=44', 'VERIF_SCRIPT_CAP=44', 'H_SCRIPT_N=44'], unwind=48, timeout=900, object_bits=10,
+                 functions=['script/script.cpp: CScript::IsPayToScriptHash', 'script/script.cpp: CScript::IsPayToWitnessScriptHash', 'script/script.cpp: CScript::IsWitnessProgram']),
            L.END_OF_SCRIPT, L.CTOR, L.COMMITMENT]
 META = {'level': 'proof', 'trusted_base': TRUSTED + ['stubs/tx_env.h: transactions as input lists; parse_tx / GetHash as oracles'],
  'assumptions': ASSUME_COMMON + [
-   "claimed fragment: (1) input selection of Instance::parse_input_transaction, (2) the session phase machine - scriptSig result -> scriptPubKey -> P2SH redeem script (stack save / restore, op-count and opcode-position restart, P2SH armed exactly with the flag and the pattern) and the commitment phase of tapscript sessions",
+   "claimed fragment: (1) input selection of Instance::parse_input_transaction, (2) the output-type patterns the setup relies on (P2SH, P2WSH, witness program: version and program extraction, all scripts up to 44 bytes), (3) the session phase machine - scriptSig result -> scriptPubKey -> P2SH redeem script (stack save / restore, op-count and opcode-position restart, P2SH armed exactly with the flag and the pattern) and the commitment phase of tapscript sessions",
    "not applicable: Instance::configure_tx_txin (290 lines over Value, HexStr, strdup, hashing: witness-program recognition, hash checks, preamble scripts, annex) and the end-to-end 'valid exactly when consensus says so' claim, which also needs the digest/crypto half of C02 and transaction parsing",
  ],
  'explanation': 'contracts on the real parse_input_transaction and on the end-of-script branches of StepScript(InterpreterEnv&) against the order prescribed by VerifyScript'}
